@@ -288,10 +288,21 @@ func verify(s sets.Set[int], m model, u int) string {
 			return fmt.Sprintf("has: Has(%d)=%v want %v (%v)", v, got, m[v], m.sorted())
 		}
 	}
-	sl := append([]int(nil), s.Slice()...)
+	raw := s.Slice()
+	sl := append([]int(nil), raw...)
 	sort.Ints(sl)
 	if fmt.Sprint(sl) != fmt.Sprint(m.sorted()) {
 		return fmt.Sprintf("slice: Slice()=%v want %v", sl, m.sorted())
+	}
+	// "Slice returns a new slice": it is the caller's, and writing into it changes
+	// nothing the set enumerates later (the Range below, and the next Slice)
+	for i := range raw {
+		raw[i] = -1000 - i
+	}
+	sl = append([]int(nil), s.Slice()...)
+	sort.Ints(sl)
+	if fmt.Sprint(sl) != fmt.Sprint(m.sorted()) {
+		return fmt.Sprintf("slice-shared: Slice()=%v after the caller wrote into the slice returned before, want %v", sl, m.sorted())
 	}
 	var seen []int
 	s.Range(func(v int) bool { seen = append(seen, v); return true })
@@ -329,6 +340,20 @@ func (H) Execute(scAny any, cfg simrt.Config, st *core.Stats) (*simrt.Outcome, *
 	body := func() {
 		ops := [2]sets.Set[int]{newSet(sc.Impl[0]), newSet(sc.Impl[1])}
 		ms := [2]model{{}, {}}
+		// the zero value of maps.Set (a nil map) is a valid empty set to read from and
+		// to remove from, and every operation on it still returns a set of its own
+		// that can be written; nothing is ever added to the operand itself
+		var nilOp [2]bool
+		for k, build := range [2][]BOp{sc.BuildA, sc.BuildB} {
+			adds := false
+			for _, o := range build {
+				adds = adds || o.K == "add"
+			}
+			if sc.Impl[k] == "maps" && !adds && (len(build)+sc.U+len(sc.Calls))%2 == 0 {
+				var zero maps.Set[int]
+				ops[k], nilOp[k] = zero, true
+			}
+		}
 		fail := func(where, d string) {
 			sig := d
 			if i := strings.Index(d, ":"); i >= 0 {
@@ -417,6 +442,12 @@ func (H) Execute(scAny any, cfg simrt.Config, st *core.Stats) (*simrt.Outcome, *
 			a, b := ops[c.Recv], ops[c.Arg]
 			ma, mb := ms[c.Recv], ms[c.Arg]
 			where := fmt.Sprintf("%s[%s,%s]", c.K, sc.Impl[c.Recv], sc.Impl[c.Arg])
+			if nilOp[c.Recv] && (c.K == "add" || c.K == "addset") {
+				continue // a write to a nil map panics, as it does for any Go map: not a call to make
+			}
+			if nilOp[c.Recv] {
+				where += "/zero-value-receiver"
+			}
 			switch c.K {
 			case "union", "intersect", "setdiff", "symdiff":
 				want := model{}
